@@ -69,4 +69,28 @@ class DownChunkingPlugin(Plugin):
                 )
             for v in values:
                 self._check_dtype(v.data, v.data_type)
-            yield self.superrun_transformation(_result, superrun, subruns)
+            # superrun and subruns are the run spans of the whole input:
+            # each yielded chunk records only its own part of them
+            v = next(iter(values))
+            yield self.superrun_transformation(
+                _result,
+                self._runs_within(superrun, v.start, v.end),
+                self._runs_within(subruns, v.start, v.end),
+            )
+
+    @staticmethod
+    def _runs_within(runs, start, end):
+        """The part of the run spans that lies within [start, end]"""
+        if runs is None:
+            return None
+        within = {
+            run_id: {"start": max(span["start"], start), "end": min(span["end"], end)}
+            for run_id, span in runs.items()
+        }
+        # Drop the runs that only touch [start, end], unless nothing else is left
+        for keep in (lambda span: span["start"] < span["end"], lambda span: span["start"] == span["end"]):
+            kept = {run_id: span for run_id, span in within.items() if keep(span)}
+            if kept:
+                return kept
+        # The chunk lies in a gap between the runs
+        return runs
